@@ -5,6 +5,8 @@ page token, injects scripted faults between pages, and refuses to serve a page t
 same pager (so a pager that never advances is stopped instead of looping).  The judge walks the
 recorded history: requests seen by the server, items yielded to the caller, final attributes.
 """
+import json
+
 from google.protobuf import descriptor as _d
 
 from .. import grammar, values, engine
@@ -371,6 +373,12 @@ def server_factory(run):
             import urllib.parse as _up
             q = dict(_up.parse_qsl(_up.urlsplit(call["url"]).query, keep_blank_values=True))
             tok = q.get("pageToken", "")
+            if "pageToken" not in q and call["reqs"] and call["reqs"][0]:
+                # a binding with body "*" carries the cursor in the JSON body
+                try:
+                    tok = json.loads(bytes.fromhex(call["reqs"][0]).decode("utf-8")).get("pageToken", "")
+                except Exception:  # noqa
+                    tok = ""
         else:
             req = codec.parse(m["input"], bytes.fromhex(call["reqs"][0]))
             tok = getattr(req, "page_token", "")
